@@ -41,13 +41,16 @@ CLAIMED["C05"] = {
 }
 
 CLAIMED["C06"] = {
-    "text": "Proof (steady-announcer half partial). Lean theorems for every history of Announce registrations and BMCA runs on a port's foreign "
-            "master list: an Erbest always is the newest of at least two stored records of its sender; after a single Announce from a "
-            "sender (and any other traffic, any BMCA phasing) that sender is never selected; no record with stepsRemoved >= 255 or the "
-            "instance's own clock identity is ever stored or selected; after every BMCA run all records are younger than 4 announce "
-            "intervals; a sender that stays silent while BMCA steps adding up to the window go by has no record left. The half 'a master "
-            "that keeps announcing is never dropped, including across sequence wrap' is NOT proved (stated as SteadyStmt) — it is checked "
-            "by the fml stream's oracle and by the correspondence. Constants are tied to the source by the translator.",
+    "text": "Proof (steady-announcer half proved for a port hearing one foreign master). Lean theorems for every history of Announce "
+            "registrations and BMCA runs on a port's foreign master list: an Erbest always is the newest of at least two stored records of "
+            "its sender; after a single Announce from a sender (and any other traffic, any BMCA phasing) that sender is never selected; no "
+            "record with stepsRemoved >= 255 or the instance's own clock identity is ever stored or selected; after every BMCA run all "
+            "records are younger than 4 announce intervals; a sender that stays silent while BMCA steps adding up to the window go by has "
+            "no record left. steady_master_is_never_dropped: from an empty list, a sender announcing once per BMCA period with "
+            "consecutive sequence numbers modulo 2^16 (any number of rounds, any number of wraps) and a BMCA period shorter than the "
+            "window is the Erbest of every BMCA run from its second Announce on, with the Announce of that round. With several foreign "
+            "masters on one port the steady statement concerns the best of them only and is not a theorem; it is checked by the fml "
+            "stream's oracle and by the correspondence. Constants are tied to the source by the translator.",
     "note": "Trusted: Lean kernel; generators; the BMCA step equals the smallest announce interval (host contract). Known finding: a "
             "network-duplicated Announce (same sequenceId) counts as two.",
     "technique": "Lean 4 theorems (invariants by induction over op histories) + translated constants + differential correspondence",
@@ -302,22 +305,28 @@ CLAIMED["C20"] = {
 }
 
 CLAIMED["C01"] = {
-    "text": "Partial. Proved in Lean, for the abstract network model (any number of nodes, any segment structure incl. rings and several "
-            "ports of one instance on a segment, any ranking, non-relaying instances allowed): in every fixed point each Slave port "
-            "follows a Master port attached to its own segment, of a different live instance whose stepsRemoved is exactly one less "
-            "and whose grandmaster attributes it carries (slave_follows_master_port); an instance that advertises is in the "
-            "grandmaster state or has a Slave port itself (master_port_node); hence every slave reaches, over exactly stepsRemoved "
-            "parent hops, a live instance in the grandmaster state whose own attributes are the ones advertised - parent chains "
-            "strictly decrease, there is no loop and no phantom grandmaster (slave_reaches_live_grandmaster). Tie, at two levels: "
-            "networks of real PtpInstances are simulated (2-8 nodes, lines, stars, rings, shared segments, dual-homed instances, "
-            "random graphs, all rankings, cold start and single faults) with every call of every instance compared with the Lean "
-            "instance model of C05-C12, and at every judged point the instances' states are checked to be a fixed point of the "
-            "abstract model. NOT proved (RootIsBestStmt): that in a relay-connected network the root is the best-ranked instance and "
-            "unique, that every segment has one Master port, and the convergence / re-convergence time - these are decided by the "
-            "oracle on the sampled scenarios (best clock sole grandmaster, one Slave port, decreasing chain to it, one Master port per "
-            "segment, no change during an observation window).",
+    "text": "Proof for fixed points, sampling for convergence. Lean theorems about the abstract network model (any number of nodes, "
+            "any segment structure incl. rings and shared segments, any ranking): (1) for every fixed point, non-relaying instances "
+            "and several ports of one instance on a segment allowed: each Slave port follows a Master port attached to its own "
+            "segment, of a different live instance whose stepsRemoved is exactly one less and whose grandmaster attributes it "
+            "carries (slave_follows_master_port); an instance that advertises is in the grandmaster state or has a Slave port "
+            "(master_port_node); every slave reaches, over exactly stepsRemoved parent hops, a live instance in the grandmaster "
+            "state whose own attributes are the ones advertised - no loop, no phantom grandmaster "
+            "(slave_reaches_live_grandmaster). (2) for every fixed point of a connected plain network (all instances relay, one "
+            "port per instance and segment): the best-ranked instance is in the grandmaster state, every instance carries exactly "
+            "its grandmaster attributes, no other instance is in the grandmaster state and every other instance has a Slave port "
+            "(best_is_only_grandmaster; via minimality of bestOf / ebestOf under the C05 key order, grandmaster consistency of "
+            "fixed points, and induction along paths of shared segments), and every segment has at least one Master port and no "
+            "two ports of a segment are both Master (one_master_per_segment; a Master port hearing another belongs to the "
+            "instance closer to the grandmaster, or equally close with the lower identity); the hypotheses are met by a concrete "
+            "network (Lemmas/NetDemo). Tie, at two levels: networks of real PtpInstances are simulated (2-8 nodes, lines, stars, rings, "
+            "shared segments, dual-homed instances, random graphs, all rankings, cold start and single faults) with every call of "
+            "every instance compared with the Lean instance model of C05-C12, and at every judged point the instances' states are "
+            "checked to be a fixed point of the abstract model. NOT proved: the convergence / re-convergence time and absence of flapping, and the "
+            "'best is sole grandmaster / one Master per segment' half for networks with several ports of one instance on a segment "
+            "- decided by the oracle on the sampled scenarios.",
     "note": "Trusted: Lean kernel; the network simulator (delivery, timers, BMCA phases, faults); generators. Known finding: networks "
             "with a non-relaying instance besides the best clock (clockClass<128, slave-only, master-only port) do not meet the "
             "property's literal wording under IEEE 1588 itself; their converged states are still fixed points of the abstract model.",
-    "technique": "Lean 4 theorems about fixed points of an abstract network model (membership lemmas, strong induction on stepsRemoved) + per-call differential correspondence of every instance + fixed-point check of converged states + network-level oracle (sampling) for convergence",
+    "technique": "Lean 4 theorems about fixed points of an abstract network model (fold-minimum lemmas over the comparison key, strong induction on stepsRemoved, induction along paths) + per-call differential correspondence of every instance + fixed-point check of converged states + network-level oracle (sampling) for convergence",
 }
